@@ -6,7 +6,7 @@
    scopes hosted by t. *)
 From Coq Require Import ZArith.
 From AV Require Import Base Machine ScopeFrames DeliverInv TreeInv DeliverAlive PotentialInv TreeStep KernelInv DeliverThms PotentialThms CycleThms NativeAbsorbed DebtInv HdInv DebtThms.
-From AV Require Import ChainWindow ReceiptWalk ReceiptRun NativeHonoured.
+From AV Require Import ChainWindow ReceiptWalk ReceiptRun NativeHonoured AuditWitness.
 
 (* the three RuntimeError guards of __exit__: otherwise nothing changes *)
 Theorem C05_scope_exit_guarded : forall s c t exc,
@@ -203,10 +203,11 @@ Theorem C05_cancelling_back_at_entry_scope : forall s t c mid fa,
 Proof. exact cancelling_back_at_entry_scope. Qed.
 Print Assumptions C05_cancelling_back_at_entry_scope.
 
-(* every task, group children included: the count is at least that.  The surplus consists of the deliveries
-   whose origin is hosted by another task (the group scope or a scope above it): _deliver_cancellation raises
-   the task's counter but records the debt only `if task is origin._host_task`, so nobody ever compensates
-   them (by design; see the witness below).  For root tasks the surplus is zero (previous theorem). *)
+(* every task, group children included: the count is at least that.  A surplus can come from deliveries whose
+   origin is hosted by another task (the group scope or a scope above it): _deliver_cancellation raises the
+   task's counter but records the debt only `if task is origin._host_task`, so nobody compensates them (by
+   design; C05_child_foreign_delivery_refuted shows one such delivery; no theorem counts the surplus).  For root
+   tasks the surplus is zero (previous theorem). *)
 Theorem C05_cancelling_back_at_entry_lower : forall ops s t,
   reach_ok2 s -> ops_ok2 s ops = true -> alloc_t s t ->
   clean s t -> clean (final step s ops) t ->
@@ -252,8 +253,11 @@ Print Assumptions C05_count_elevated_behind_shield_refuted.
    AExit 2 3 false; ASetShield 2 2 true]: the host cancels the group scope 1 while child 2 sleeps in its own
    scope 3; the delivery raises the child's counter to 1 and records no debt anywhere (pending_of = 0: the
    origin is hosted by task 1); after leaving scope 3 the count is 1, not the 0 of entry, and it stays 1 even when
-   the child is no longer effectively cancelled (it shields its own handle scope).  Restoration relative to entry
-   fails for group children exactly by these foreign deliveries; the true statement is the lower bound above. *)
+   the child is no longer effectively cancelled (it shields its own handle scope).  The end state is NOT `clean` (the
+   cancelled group scope is on the child's chain), so this is not a strict-gap instance of
+   C05_cancelling_back_at_entry_lower; what it refutes is C05_cancelling_restored_counter without its hypothesis
+   k_group = None: for a group child the counter is not restored by the time nothing is pending and the child is no
+   longer effectively cancelled. *)
 Theorem C05_child_foreign_delivery_refuted :
   let s0 := final step init child_pre in
   let s1 := final step s0 child_mid in
@@ -279,8 +283,9 @@ Theorem C05_native_request_placed : forall (a : st) (t : tid),
 Proof. exact native_request_placed. Qed.
 Print Assumptions C05_native_request_placed.
 
-(* it stays recorded across every op of every reachable state that does not resume (or otherwise affect) the task:
-   no delivery, no API call of another task, no callback erases or overwrites it *)
+(* it stays recorded across every op_ok op of every reachable state that neither resumes the task nor is performed by
+   it nor creates / retires it (~ In t (aff a o)): no delivery, no API call of another task, no callback erases or
+   overwrites it *)
 Theorem C05_native_request_stays_pending : forall (a : st) (o : op) (t : tid),
   reach_ok a -> op_ok a o = true -> ~ In t (aff a o) -> NHeld a t -> NHeld (fst (step a o)) t.
 Proof. exact native_request_stays_pending. Qed.
@@ -295,8 +300,9 @@ Proof. exact native_request_received. Qed.
 Print Assumptions C05_native_request_received.
 
 (* together: a native request made on an unfinished task whose wait has not already been cancelled by a scope's
-   delivery (boolean hypothesis on the state at the request) is, after any further ops that do not resume the task,
-   still pending, and whichever ready handle resumes the task then raises a native CancelledError in it *)
+   delivery (boolean hypothesis on the state at the request) is, after any further op_ok ops none of which affects the
+   task (unaffected: the task neither acts nor is resumed), still pending, and whichever ready handle resumes the task
+   then raises a native CancelledError in it *)
 Theorem C05_native_request_honoured : forall (a : st) (t : tid) (ops : list op),
   reach_ok a -> k_done (tasks a t) = None -> t < ntask a -> wait_cancelled_by_scope a t = false ->
   let a1 := fst (step a (ANativeCancel t)) in
@@ -334,3 +340,68 @@ Theorem C05_native_request_hypothesis_needed :
   existsb is_native_result (results init f19_ops) = false.
 Proof. exact native_request_hypothesis_needed. Qed.
 Print Assumptions C05_native_request_hypothesis_needed.
+
+(* the same with other tasks acting between the request and the receipt (audit 2, item 15): nat_pre = [ANewRoot;
+   ASleep 1 None], then ANativeCancel 1, then nat_ops = [ANewRoot; ANewScope 2 None false; AEnter 2 1; ACancel 2 1;
+   ARun (HDeliver 1); ATick 3]: a second root task appears, enters scope 1 and cancels it, the scope's delivery callback
+   runs (it cancels task 2's own wait), time passes; task 1's wake-up then raises the native CancelledError *)
+Theorem C05_native_request_honoured_nonvacuous_run :
+  let a := final step init nat_pre in
+  let a1 := fst (step a (ANativeCancel 1)) in
+  let s := final step a1 nat_ops in
+  ops_ok init nat_pre = true /\ k_done (tasks a 1) = None /\ 1 < ntask a /\ wait_cancelled_by_scope a 1 = false /\
+  ops_ok a1 nat_ops = true /\ unaffected 1 a1 nat_ops /\
+  ready s = [HWake 1 2; HWake 2 6; HDeliver 1] /\ s_cancelled (scopes s 1) = true /\
+  snd (step s (ARun (HWake 1 2))) = RExc (ECancel 0).
+Proof. exact native_request_run_premises. Qed.
+Print Assumptions C05_native_request_honoured_nonvacuous_run.
+
+Theorem C05_native_request_honoured_nonvacuous_run_instance :
+  let a := final step init nat_pre in
+  let a1 := fst (step a (ANativeCancel 1)) in
+  let s := final step a1 nat_ops in
+  NHeld s 1 /\ receives_native s (HWake 1 2) 1.
+Proof. exact native_request_run_instance. Qed.
+Print Assumptions C05_native_request_honoured_nonvacuous_run_instance.
+
+(* one op of that run for C05_native_request_stays_pending: the delivery callback of scope 1 runs (it cancels the wait
+   of task 2 with the scope's message) while task 1 holds the native request in its cancelled wait *)
+Theorem C05_native_request_stays_pending_nonvacuous :
+  let a := final step (fst (step (final step init nat_pre) (ANativeCancel 1))) (firstn 4 nat_ops) in
+  ops_ok init (nat_pre ++ ANativeCancel 1 :: firstn 4 nat_ops) = true /\
+  op_ok a (ARun (HDeliver 1)) = true /\ In (HDeliver 1) (ready a) /\ ~ In 1 (aff a (ARun (HDeliver 1))) /\
+  k_waiter (tasks a 1) = Some 2 /\ f_st (futs a 2) = FCanc 0 /\
+  f_st (futs (fst (step a (ARun (HDeliver 1)))) 2) = FCanc 0 /\
+  k_waiter (tasks (fst (step a (ARun (HDeliver 1)))) 2) = Some 6 /\
+  f_st (futs (fst (step a (ARun (HDeliver 1)))) 6) = FCanc 2.
+Proof. exact native_request_stays_pending_witness. Qed.
+Print Assumptions C05_native_request_stays_pending_nonvacuous.
+
+(* ---- entry-relative restoration: instances with every premise stated (audit 2, item 15) ---- *)
+(* root task (C05_cancelling_back_at_entry): root_ops = tl handover_pre ++ handover_mid ++ handover_post from the state
+   after [ANewRoot]: task 1 enters 1 > 2 > 3, scopes 1 and 3 are cancelled, the delivery of 3 hits the sleeping task,
+   scope 3 hands its debt to 2, the task leaves 3, 2 and 1; the count is 1 in between and 0 at both ends *)
+Theorem C05_cancelling_back_at_entry_nonvacuous_root :
+  let s0 := final step init [ANewRoot] in
+  reach_ok2 s0 /\ ops_ok2 s0 root_ops = true /\ alloc_t s0 1 /\ k_group (tasks s0 1) = None /\
+  clean s0 1 /\ clean (final step s0 root_ops) 1 /\
+  ext_count s0 root_ops 1 = 0%Z /\ k_ncancel (tasks s0 1) = 0 /\ k_ncancel (tasks (final step s0 root_ops) 1) = 0 /\
+  k_ncancel (tasks (final step s0 (tl handover_pre ++ handover_mid)) 1) = 1.
+Proof. exact back_at_entry_root_instance. Qed.
+Print Assumptions C05_cancelling_back_at_entry_nonvacuous_root.
+
+(* a task-group child (C05_cancelling_back_at_entry_lower, the theorem for every task; C05_cancelling_back_at_entry
+   itself is about root tasks only): child_pre = [ANewRoot; AGroupNew 1; AGroupEnter 1 1; ASpawn 1 1; ARun (HStep 2);
+   ANewScope 2 None false], child_own = [AEnter 2 3; ACancel 2 3; ASleep 2 None; ARun (HDeliver 3); ARun (HWake 2 9);
+   AExit 2 3 false]: child 2 cancels its own scope 3, the delivery raises its counter to 1, the scope absorbs the
+   cancellation at exit and takes the uncancel back; no scope on the child's chain (handle scope 2, group scope 1) is
+   cancelled at either end; the bound is attained *)
+Theorem C05_cancelling_back_at_entry_lower_nonvacuous_child :
+  let s0 := final step init child_pre in
+  let s1 := final step s0 child_own in
+  reach_ok2 s0 /\ ops_ok2 s0 child_own = true /\ alloc_t s0 2 /\ k_group (tasks s0 2) = Some 1 /\
+  clean s0 2 /\ clean s1 2 /\
+  ext_count s0 child_own 2 = 0%Z /\ k_ncancel (tasks s0 2) = 0 /\ k_ncancel (tasks s1 2) = 0 /\
+  k_ncancel (tasks (final step s0 (firstn 4 child_own)) 2) = 1.
+Proof. exact back_at_entry_child_instance. Qed.
+Print Assumptions C05_cancelling_back_at_entry_lower_nonvacuous_child.
